@@ -23,6 +23,8 @@ func c09Scenarios(tier string) []*Scenario {
 	for i, k := range kinds {
 		vs = append(vs, variant{kind: k, cached: i%2 == 0, shards: 1, threads: 2})
 	}
+	// several registry shards: the scopes asked for live in shards nobody has used yet
+	vs = append(vs, variant{kind: "tagged", cached: false, shards: 8, threads: 2}, variant{kind: "subscope", cached: true, shards: 8, threads: 2})
 	if tier == "thorough" {
 		for i, k := range kinds {
 			vs = append(vs, variant{kind: k, cached: i%2 == 1, shards: 2, threads: 2, onSub: true})
